@@ -4,6 +4,8 @@ package main
 import (
 	"verif/internal/cli"
 
+	_ "verif/checks/c01"
+	_ "verif/checks/c15"
 	_ "verif/checks/c20"
 )
 
